@@ -1,5 +1,5 @@
 """C05 — GLSL integer/bitfield functions."""
-from props import simple, gen_have, INT_TYPES, CFG_AVX2, CFG_SSE2
+from props import simple, gen_have, INT_TYPES, CFG_AVX2, CFG_SSE2, CFG_ALLHDR
 
 
 def c05_prebuild(stage, pid, tier):
@@ -17,7 +17,7 @@ def SPEC(tier):
                'every value of the 8/16-bit element types (exhaustive) and structured+random 32/64-bit values through the GLSL integer functions, scalar and vec1-4 overloads, '
                'against loop-based reference definitions of the GLSL 4.20 text; every (offset,bits) pair with offset+bits<=width; instantiation of every (function,type) checked by a syntax-only pre-pass; '
                'non-trivial = value not 0/all-ones, field neither empty nor full width; the harness is also built with GLM_FORCE_INTRINSICS (AVX2, SSE2), where the aligned vec2/3/4 overloads are added',
-               configs=[CFG_AVX2, CFG_SSE2])
+               configs=[CFG_AVX2, CFG_SSE2, CFG_ALLHDR])
     for st in d['stages']:
         st.prebuild = c05_prebuild
     return d
